@@ -324,26 +324,26 @@ func (s *c19Scenario) onFinish(o *c19Op) {
 	switch o.Kind {
 	case c19AutoAssign, c19AssignIP:
 		for _, a := range o.IPs {
-			if ow, ok := s.model.live[a]; ok && !s.uncertain(a, ow) {
-				s.fail("address %s returned by %s while it is still owned by %s (handle %q, since step %d)", a, o, ow.opID, ow.handle, ow.sinceStep)
-			}
 			nw := c19Owner{opID: o.ID, sinceStep: s.r.step}
 			if o.Handle != nil {
 				nw.handle, nw.hasHandle = *o.Handle, true
 			}
 			// The block write that allocated the address happened somewhere inside the
-			// operation's interval; a release that could hit it and ended inside that interval
-			// may legitimately have freed it again already.
+			// operation's interval; a release that could hit it and was running during that
+			// interval (finished meanwhile or still in flight) may legitimately have freed it
+			// again already - and somebody else may legitimately own it by now.
 			overlapped := false
 			for _, r := range s.r.ops {
-				if r != o && r.finished && r.endStep >= o.startStep && c19CanHit(r, a, nw) {
+				if r != o && (!r.finished || r.endStep >= o.startStep) && c19CanHit(r, a, nw) {
 					overlapped = true
 				}
 			}
 			if overlapped {
-				delete(s.model.live, a)
 				s.classes["assign-overlapped-by-release"] = true
 				continue
+			}
+			if ow, ok := s.model.live[a]; ok && !s.uncertain(a, ow) {
+				s.fail("address %s returned by %s while it is still owned by %s (handle %q, since step %d)", a, o, ow.opID, ow.handle, ow.sinceStep)
 			}
 			s.model.live[a] = nw
 		}
